@@ -201,6 +201,9 @@ class ExecFull(ExecPlaces):
         for nm in names:
             if nm in fr.env:
                 fr.env[nm] = self.havoc_value(fr.env[nm], nm)
+        if fr.yielded is not None and any(isinstance(x, (ast.Yield, ast.YieldFrom)) for st in body for x in ast.walk(st)):
+            fr.yielded = fresh("_yielded", fr.yielded.ty)  # the loop yields: what has been yielded so far is loop state
+            fr.env["_yielded"] = fr.yielded
         roots = _mutated_roots(body) | set((spec or {}).get("modifies", []))
         callees_mod = self.w.callee_modifies(body, fr, self)
         roots |= callees_mod
@@ -402,13 +405,27 @@ class ExecFull(ExecPlaces):
         if iter_cell is not None:
             return self.for_iterator(s, fr, it, k, spec)
         kname = f"_k"
-        fr.env[kname] = 0
+        start_k = 0
+        if spec.get("peel"):
+            # first iteration executed as written (e.g. an accumulator that starts as None), the invariant
+            # speaks about iterations >= 1; the contract must make the sequence non-empty
+            self.oblige("peel-nonempty", count >= 1, s, tag=f"#{k}")
+            self.p.assume(count >= 1)
+            self.assign(s.target, elem_at(z3.IntVal(0)), fr, s)
+            try:
+                self.exec_block(s.body, fr)
+            except _Continue:
+                pass
+            except _Break:
+                return
+            start_k = 1
+        fr.env[kname] = start_k
         self.check_invariant(spec, fr, "inv-init", s, k)
         choice = self.p.decide(2)
         self.havoc_for_loop(s.body, fr, spec)
         kv = fresh("_k", INT)
         fr.env[kname] = kv
-        self.p.assume(z3.And(kv.z >= 0, kv.z <= count))
+        self.p.assume(z3.And(kv.z >= start_k, kv.z <= count))
         self.assume_invariant(spec, fr)
         if choice == 0:
             self.p.assume(kv.z < count)
@@ -775,11 +792,10 @@ def comp_function(ex, node, fr, kind):
         S = ex.to_sv(S, SEQ(VAL))
     caps = [nm for nm in _free_names(node.elt, {tname}) if nm in fr.env and isinstance(fr.env[nm], (SV, Ref))]
     cap_vals = [ex.to_sv(fr.env[nm]) for nm in caps]
-    top = ex.prefix.split(">")[0].split("#")[0].split(".")[-1].split(":")[-1]
-    if top in ("<lambda>",) or not top.isidentifier():
-        top = fr.fn_name.replace("contract:", "")
-    # named by the enclosing repository function and the line offset of the comprehension inside it
-    fname = f"comp_{top}_L{getattr(node, 'lineno', 0) - ex.line0}"
+    import hashlib
+
+    # named by its own text and captured names: the same comprehension written in a contract clause is the same function
+    fname = "comp_" + hashlib.sha1((ast.unparse(node) + "|" + ",".join(caps)).encode()).hexdigest()[:8]
     sf = ex.w.specs.get(fname)
     if sf is None:
         # element type: evaluate the element expression on a fresh element
